@@ -157,6 +157,7 @@ def run(ctx):
     def replayer(ctx2, ob, model):
         return replay.run_native('c08.py', {'mode': 'search', 'obligation': ob.name}, timeout=300)
     ctx.replayers['dimsemessages.*'] = replayer
+    ctx.native_crosschecks.append(('c08.py', {'mode': 'search', 'obligation': ''}, 'transmitted command sets of all classes, re-sends'))
     ctx.assumptions += [
         'pydicom writer: dsutils.encode(ds, True, True) is the concatenation, in ascending tag order, of '
         'dsutils.encode_element(e, True, True) over the elements of ds; Dataset.values() iterates in insertion order; '
